@@ -401,11 +401,15 @@ def group_descs(tier):
                                packet("D", [group("G", [cons("n", 2)])]),
                                packet("F", [group("G", [cons("k", "C"), cons("n", 2)])]),
                                packet("N", [scalar("h", 8), group("G")])], name="grp_matrix"))
+    # (a group field may only constrain the group's own fields: E15 otherwise, so the inner bindings sit in the outer groups)
     out.append(desc("little", [E8, groupdecl("In", [typedef("k", "E8"), scalar("n", 8)]),
-                               groupdecl("Out", [scalar("o", 8), group("In")]),
-                               packet("A", [group("Out", [cons("k", "A")])]),
-                               packet("B", [group("Out", [cons("k", "B"), cons("o", 5)])]),
-                               struct("S", [group("Out", [cons("n", 7), cons("o", 5)])])], name="grp_matrix_nested"))
+                               groupdecl("OutA", [scalar("o", 8), group("In", [cons("k", "A")])]),
+                               groupdecl("OutB", [scalar("o", 8), group("In", [cons("k", "B")])]),
+                               groupdecl("OutN", [scalar("o", 8), group("In", [cons("n", 7)])]),
+                               packet("A", [group("OutA")]),
+                               packet("B", [group("OutB", [cons("o", 5)])]),
+                               packet("C", [group("OutA", [cons("o", 5)]), scalar("t", 8)]),
+                               struct("S", [group("OutN", [cons("o", 5)])])], name="grp_matrix_nested"))
     return out
 
 
